@@ -448,7 +448,7 @@ def run_race(o, d, cap, witness=False):
         except Exception: tails[b] = ''
     return {'verdict': None, 'wall_s': round(el, 2), 'timeout': el >= cap, 'tails': tails}
 
-CLASSES = ('PROPERTY:', 'WITNESS:', 'UB:', 'TERMINATE:', 'TRAP:', 'BOUND:', 'MODEL:')
+CLASSES = ('PROPERTY:', 'WITNESS:', 'UB:', 'TERMINATE:', 'TRAP:', 'BOUND:', 'MODEL:', 'SHARED-WRITE:')
 def classify(desc):
     for c in CLASSES:
         if desc.startswith(c): return c[:-1]
@@ -583,6 +583,12 @@ def check(prop, tier, only=None, keep=False, seed=0):
             # replay every distinct counterexample natively; report the first confirmed one
             order = sorted(real, key=lambda f: 0 if f['class'] == 'PROPERTY' else 1)
             res['cex_all'] = order[:6]
+            sw = [f for f in real if f['class'] == 'SHARED-WRITE']
+            if sw:
+                # C19: a store into a mutable module-level object inside the operation window is established by the symbolic
+                # execution itself (the store site is in the trace); a data race has no deterministic native replay
+                res['status'] = 'violation'; res['cex'] = sw[0]; sw[0]['native'] = 'not replayable natively (sufficient condition for race freedom violated at %s)' % sw[0].get('where')
+                return res
             for f in order[:6]:
                 inp = (f.get('inputs') or '').ljust(2 * o['in'], '0')
                 rr = run_native_each(os.path.join(d, 'native_real'), ['%s %s' % (o['name'], inp)])
